@@ -98,6 +98,10 @@ func RunC09(t *testing.T, tape *Tape) *Outcome {
 	// (the follow-up evaluation refreshes the root frame while leftovers of the
 	// cancelled run may still be parked), or only after they are gone
 	earlyFollow := entry == 3 && tape.Choose(2) == 1
+	// REPL style: an earlier, successful evaluation of the session has left
+	// goroutines behind (a second activation of the actor tree); the later
+	// cancellation concerns every interpreted goroutine
+	background := entry == 3 && tape.Choose(3) == 2
 	prog := GenC09Imp(tape, mode == 3, withImport)
 	cfg := SchedCfg(tape, true)
 	cfg.MaxOps = 1500
@@ -111,6 +115,10 @@ func RunC09(t *testing.T, tape *Tape) *Outcome {
 	if earlyFollow {
 		o.Desc += " +follow-up-eval-at-once"
 		o.Detail["early_follow_up"] = true
+	}
+	if background {
+		o.Desc += " +goroutines-of-earlier-eval"
+		o.Detail["background_goroutines"] = true
 	}
 	if withImport {
 		o.Desc += " +source-import"
@@ -130,6 +138,9 @@ func RunC09(t *testing.T, tape *Tape) *Outcome {
 	rootName := "c0.0"
 	if entry == 3 {
 		rootName = "c0.1" // c0.0 evaluated the declarations
+		if background {
+			rootName = "c0.2" // c0.1 evaluated the call which started the background actors
+		}
 	}
 
 	res := Simulate(t, tape, cfg, func(r *Run) {
@@ -200,11 +211,20 @@ func RunC09(t *testing.T, tape *Tape) *Outcome {
 				// uncancelled), then the cancellable call. No symbol "main" exists, so
 				// later evaluations do not re-run the program.
 				decls := strings.Replace(prog.Src, "func main() {", "func Main_() {", 1)
+				if background {
+					decls += fmt.Sprintf("\nfunc Bg_() {\n\tgo actor%d()\n}\n", prog.Root)
+				}
 				// (EvalWithContext, as the yaegi REPL does, so that the declarations are
 				// compiled in the cancellable channel mode the property is about.)
 				if _, compileErr = inter.EvalWithContext(context.Background(), decls); compileErr != nil {
 					ret.err = compileErr
 					break
+				}
+				if background {
+					if _, compileErr = inter.EvalWithContext(context.Background(), "Bg_()"); compileErr != nil {
+						ret.err = compileErr
+						break
+					}
 				}
 				arm() // k counts from the start of the cancellable call
 				ret.v, ret.err = inter.EvalWithContext(ctx, "Main_()")
@@ -325,6 +345,13 @@ func RunC09(t *testing.T, tape *Tape) *Outcome {
 		o.FaultFired["cancel-during-pkg-init"]++
 	}
 	kindOf := func(tk *Task) string {
+		if background && strings.HasPrefix(tk.Name, "c0.1.") {
+			b := "unknown"
+			if bb, ok := bodyOf[tk.idx]; ok {
+				b = bb
+			}
+			return "earlier-eval-goroutine:" + b
+		}
 		if earlyFollow {
 			// the listed finding concerns code running in the shared root frame
 			// (the evaluation's own goroutine); goroutines that existed when the
